@@ -293,4 +293,44 @@ pub fn generate(seed: u64, tier: &str, sink: &mut Sink) {
             }
         }
     }
+    // the JSON readers: `json()` / `json_utf8()` stop parsing at the end of the document — they must still not
+    // return Ok unless the framing behind the document is complete (terminating chunk and its final line ending,
+    // trailer section, outstanding Content-Length octets)
+    let docs: [&[u8]; 3] = [b"{\"a\":[1,2,3],\"b\":\"x\"}", b"[true,null,{\"k\":\"v\"}]", b"\"just a string\""];
+    for (di, doc) in docs.iter().enumerate() {
+        for framing in 0..3 {
+            let body = match framing {
+                0 => BodySpec::Chunked { chunks: vec![Chunk { data: doc.to_vec(), size_repr: format!("{:x}", doc.len()).into_bytes(), ext: vec![] }], last_repr: b"0".to_vec(), last_ext: vec![], trailers: vec![] },
+                1 => {
+                    let k = doc.len() / 2;
+                    BodySpec::Chunked {
+                        chunks: vec![Chunk { data: doc[..k].to_vec(), size_repr: format!("{:x}", k).into_bytes(), ext: vec![] }, Chunk { data: doc[k..].to_vec(), size_repr: format!("{:X}", doc.len() - k).into_bytes(), ext: b";x".to_vec() }],
+                        last_repr: b"00".to_vec(),
+                        last_ext: vec![],
+                        trailers: vec![b"X-Sum: 1".to_vec()],
+                    }
+                }
+                _ => BodySpec::Length(doc.to_vec()),
+            };
+            let spec_ = RespSpec { version: b"HTTP/1.1".to_vec(), status: 200, reason: b"OK".to_vec(), fields: vec![(b"Content-Type".to_vec(), b" application/json".to_vec())], te_name: b"Transfer-Encoding".to_vec(), te_value: b"chunked".to_vec(), body, trail: vec![] };
+            let wire = spec_.wire();
+            let head_len = spec_.head_bytes().len();
+            let base_segs = vec![Seg::Data(wire.clone())];
+            // every cut from the middle of the document to the end of the frame, and the complete frame
+            for p in (head_len + doc.len() / 2)..=wire.len() {
+                let segs = if p == wire.len() { base_segs.clone() } else { splice(&base_segs, p, None, true) };
+                let m = Mutated { kind: if p == wire.len() { "none" } else { "cut" }, arrived: flat(&segs), segs, err_at: None };
+                let how = if (p + di) % 2 == 0 { crate::resp::DRAIN_JSON } else { crate::resp::DRAIN_JSON_UTF8 };
+                let case = RespCase { method: "GET".into(), max_headers: 100, segs: m.segs.clone(), reads: Reads::Drain(how) };
+                let out = run_resp(&case);
+                let o = oracle(&spec_, &m, head_len, &case, &out, line_limit);
+                sink.push(Case {
+                    tags: vec![format!("framing={}", spec_.framing_name()), format!("mut={}", m.kind), "at=behind-json-document".into(), "seg=one".into(), "reads=json()".into()],
+                    op: case.op_line(),
+                    impl_line: out.line(),
+                    oracle: o,
+                });
+            }
+        }
+    }
 }
